@@ -99,6 +99,24 @@ pub fn judge(ctx: &mut Ctx, r: &Range, source: &str, from_parse: bool) {
         ctx.violation(&format!("not-equal/{}", cls), w, format!("{} parsed, printed as {:?} and re-parsed is != the original ({:?} vs {:?})", source, printed, r, s));
         return;
     }
+    // str::parse::<Range>() must read the printed form exactly like Range::parse
+    ctx.eval(1);
+    match guarded(|| printed.parse::<Range>()) {
+        Ok(Ok(f)) => {
+            if f != s || f.to_string() != s.to_string() {
+                ctx.violation(&format!("from_str-differs/{}", cls), w, format!("{:?} read by str::parse gives {} but Range::parse gives {}", printed, f, s));
+                return;
+            }
+        }
+        Ok(Err(e)) => {
+            ctx.violation(&format!("from_str-fails/{}", cls), w, format!("{:?} is accepted by Range::parse but str::parse fails: {}", printed, e));
+            return;
+        }
+        Err(p) => {
+            ctx.violation(&format!("panic/from_str/{}", p.site), w, p.message);
+            return;
+        }
+    }
     let again = s.to_string();
     if again != printed {
         ctx.violation(&format!("not-fixed-point/{}", cls), w, format!("printed {:?}, re-parsed and printed {:?}", printed, again));
